@@ -122,7 +122,10 @@ def run(ctx):
             r.bad("R15.3", key, "%s:%d" % ("serializer.py", y.lineno), "output that does not pass through encode()/encodeStrict(): %s" % norm(val))
             continue
         arg = norm(val.args[0])
-        is_data = arg in data_exprs
+        # document data: the token's text, an attribute value (`v`, `attr_value`) or anything computed from them
+        is_data = arg in data_exprs or any(
+            (isinstance(x, ast.Name) and x.id in ("v", "attr_value")) or
+            (isinstance(x, ast.Subscript) and norm(x) == "token['data']") for x in ast.walk(val.args[0]))
         if is_data:
             r.check("R15.3", norm(val.func) == "self.encode", key, "serializer.py:%d" % y.lineno,
                     "document text / attribute value `%s` is encoded strictly: an unencodable character raises instead of being "
